@@ -64,6 +64,27 @@ type c17World struct {
 	chainLive        bool                        // the 3-link transitive delegation chain is on chain in this epoch
 	nondet           bool                        // the proposer's own re-executions of the final block disagreed
 	altNote          string
+	pfx              string            // counter prefix of the job
+	reorged          map[*Replica]bool // replicas that switched away from a minority block with answers txs in this epoch
+	restartedAfter   map[*Replica]bool // ... and were restarted afterwards (before the validation-finishing block)
+	pendingRestart   map[*Replica]int  // restart after that many further blocks
+	reorgVariant     int
+	restartsBefore   map[*Replica]int // restart counters at the beginning of the epoch
+	lateDumpDiffs    []string         // evaluations inside an ADOPTED late fork whose returned epoch result differs from everybody else's
+}
+
+// cnt adds to a coverage counter of this job.
+func (c *c17World) cnt(name string, n int) { c.rep.Count(c.pfx+name, n) }
+
+// label appends the history class of r in this epoch to a variant name.
+func (c *c17World) label(r *Replica, v string) string {
+	if c.reorged[r] {
+		if i := strings.Index(v, "-"); i > 0 {
+			v = v[:i]
+		}
+		return v + "-after-answers-reorg"
+	}
+	return v
 }
 
 func (c *c17World) variantOf(r *Replica, proposer *Replica) string {
@@ -72,11 +93,11 @@ func (c *c17World) variantOf(r *Replica, proposer *Replica) string {
 	}
 	if v, ok := c.variant[r]; ok {
 		if ph, ok := c.rsPhase[r]; ok && ph != "" {
-			return v + "-" + ph
+			return c.label(r, v+"-"+ph)
 		}
-		return v
+		return c.label(r, v)
 	}
-	return "node"
+	return c.label(r, "node")
 }
 
 // evalOnCheck executes b once on a fresh private check state of r.
@@ -85,11 +106,14 @@ func (c *c17World) evalOnCheck(r *Replica, b *types.Block, variant, pass string)
 	c17MapOrderProbe(c.orders)
 	_, _, err := r.Chain.VerifValidateOnCheck(b)
 	c.rep.Eval(1)
-	c.rep.Count("epoch_evaluations", 1)
-	c.rep.Count("variant_"+strings.SplitN(variant, "-", 2)[0]+"_"+pass, 1)
+	c.cnt("epoch_evaluations", 1)
+	c.cnt("variant_"+strings.SplitN(variant, "-", 2)[0]+"_"+pass, 1)
+	if c.reorged[r] {
+		c.cnt("evals_by_replica_after_answers_reorg", 1)
+	}
 	if err != nil {
 		sig := "epoch-result-differs:" + variant + ":" + pass + ":" + ErrClass(err)
-		if c.chainLive {
+		if c.chainLive && !c.reorged[r] {
 			sig = "epoch-result-order-dependent:transitive-delegation-chain"
 			c.nondet = true
 		}
@@ -103,7 +127,7 @@ func (c *c17World) evalOnCheck(r *Replica, b *types.Block, variant, pass string)
 
 func (c *c17World) describe() map[string]interface{} {
 	return map[string]interface{}{"world_seed": c.w.Opt.Seed, "shard": c.shard, "world": c.worldNo, "consensus": int(c.w.Opt.Version),
-		"identities": c.w.Opt.NIdent, "god_is_identity": c.w.Opt.GodIsIdentity, "epoch_no": c.sim.EpochNo}
+		"identities": c.w.Opt.NIdent, "god_is_identity": c.w.Opt.GodIsIdentity, "epoch_no": c.sim.EpochNo, "job": c.pfx + "real", "answers_reorg": c.describeReorg()}
 }
 
 // finalBlock is called with the validation-finishing block after the proposer built it and
@@ -111,9 +135,12 @@ func (c *c17World) describe() map[string]interface{} {
 func (c *c17World) finalBlock(b *types.Block, p *Replica) {
 	w := c.w
 	c.rep.Progress("C17 world %d seed %d: final block %d of epoch %d", c.worldNo, w.Opt.Seed, b.Height(), c.sim.Plan.Epoch)
-	c.rep.Count("real_epochs_driven", 1)
+	c.cnt("real_epochs_driven", 1)
 	if p == c.nodeRestarted {
-		c.rep.Count("final_block_built_by_restarted_node", 1)
+		c.cnt("final_block_built_by_restarted_node", 1)
+	}
+	if c.reorged[p] {
+		c.cnt("final_block_built_by_reorganised_node", 1)
 	}
 	// the proposer evaluated once while building (first pass); every further evaluation hits its
 	// cache. Same node, same block, same prior state: every evaluation must give the same verdict.
@@ -131,8 +158,8 @@ func (c *c17World) finalBlock(b *types.Block, p *Replica) {
 		c17MapOrderProbe(c.orders)
 		_, _, err := p.Chain.VerifValidateOnCheck(b)
 		c.rep.Eval(1)
-		c.rep.Count("epoch_evaluations", 1)
-		c.rep.Count("variant_proposer_cached", 1)
+		c.cnt("epoch_evaluations", 1)
+		c.cnt("variant_proposer_cached", 1)
 		if err != nil {
 			refd++
 			lastErr = err
@@ -144,7 +171,7 @@ func (c *c17World) finalBlock(b *types.Block, p *Replica) {
 		cause := "no-known-cause"
 		if live {
 			cause = "transitive-delegation-chain"
-			c.rep.Count("order_dependence_observed_with_chain3", 1)
+			c.cnt("order_dependence_observed_with_chain3", 1)
 		}
 		c.nondet = true
 		what := fmt.Sprintf("the proposer %s re-executed its own validation-finishing block %d (epoch %d) %d times on fresh check states of the same head: %d accepted, %d refused (%v)",
@@ -183,7 +210,7 @@ func (c *c17World) finalBlock(b *types.Block, p *Replica) {
 		if i == 0 {
 			pass = "first"
 		}
-		if !c.evalOnCheck(c.fresh, b, "blind", pass) {
+		if !c.evalOnCheck(c.fresh, b, c.label(c.fresh, "blind"), pass) {
 			break
 		}
 	}
@@ -193,8 +220,12 @@ func (c *c17World) finalBlock(b *types.Block, p *Replica) {
 			c.rep.Violation("restart-failed:final", fmt.Sprintf("restart of a follower before the validation-finishing block failed: %v", err), nil)
 			break
 		}
-		c.rep.Count("restart_at_final", 1)
-		if !c.evalOnCheck(c.fresh, b, "fresh", "first") {
+		c.cnt("restart_at_final", 1)
+		if c.reorged[c.fresh] {
+			c.restartedAfter[c.fresh] = true
+			c.cnt("restart_after_answers_reorg", 1)
+		}
+		if !c.evalOnCheck(c.fresh, b, c.label(c.fresh, "fresh"), "first") {
 			break
 		}
 	}
@@ -221,7 +252,7 @@ func (c *c17World) competingProposal() {
 		return // the epoch result of this epoch is known to depend on map order; a second proposal adds nothing
 	}
 	if c.alt == nil || !c.alt.Alive || !c.alt.CanPropose() {
-		c.rep.Count("competing_proposal_skipped_no_proposer", 1)
+		c.cnt("competing_proposal_skipped_no_proposer", 1)
 		return
 	}
 	// a candidate that sent nothing so far commits to answers at the last moment: allowed on
@@ -258,12 +289,12 @@ func (c *c17World) competingProposal() {
 		c.alt.TxPool.Remove(tx)
 	}
 	if !prop.Block.Header.Flags().HasFlag(types.ValidationFinished) {
-		c.rep.Count("competing_proposal_not_final", 1)
+		c.cnt("competing_proposal_not_final", 1)
 		return
 	}
-	c.rep.Count("competing_proposals_built", 1)
+	c.cnt("competing_proposals_built", 1)
 	if c.altTx != nil {
-		c.rep.Count("competing_proposals_with_late_ceremony_tx", 1)
+		c.cnt("competing_proposals_with_late_ceremony_tx", 1)
 	}
 	c.rival.enter()
 	if _, err := c.rival.Chain.ValidateBlock(prop.Block, nil, c.rival.Stats); err != nil {
@@ -279,13 +310,22 @@ func (c *c17World) competingProposal() {
 // Returns false if the world cannot go on.
 func (c *c17World) zeroFlipCeremony() bool {
 	w, pl := c.w, c.sim.Plan
-	if len(pl.Flips) != 0 {
+	empty := map[common.ShardId]bool{}
+	for sh := common.ShardId(1); sh <= common.ShardId(pl.NShards); sh++ {
+		if len(pl.FlipsBy[sh]) == 0 {
+			empty[sh] = true
+		}
+	}
+	if len(empty) == 0 {
 		return true
 	}
-	c.rep.Count("real_ceremonies_without_flips", 1)
+	if len(empty) == pl.NShards {
+		c.cnt("real_ceremonies_without_flips", 1)
+	}
+	c.cnt("real_shards_without_flips", len(empty))
 	long := 0
-	for _, m := range pl.InBlock {
-		if _, ok := m[types.SubmitLongAnswersTx]; ok {
+	for a, m := range pl.InBlock {
+		if _, ok := m[types.SubmitLongAnswersTx]; ok && empty[pl.ShardOf[a]] {
 			long++
 		}
 	}
@@ -301,7 +341,7 @@ func (c *c17World) zeroFlipCeremony() bool {
 		return true
 	}
 	c.rep.Violation("epoch-evaluation-panics:ceremony-without-flips",
-		fmt.Sprintf("epoch %d has no flip in its only shard, %d candidates have long answers on chain (the lottery gave each the placeholder long list [0]); building the validation-finishing block panics in %s: %v",
+		fmt.Sprintf("epoch %d has a shard without any flip, %d of its candidates have long answers on chain (the lottery gave each the placeholder long list [0]); building the validation-finishing block panics in %s: %v",
 			pl.Epoch, long, verifutil.TopRepoFrame(stack), p),
 		map[string]interface{}{"world": c.describe(), "plan": pl.Describe(), "stack": verifutil.Trunc(stack, 3000)})
 	return false
@@ -314,6 +354,7 @@ func (c *c17World) afterFinal(b *types.Block) {
 	var ref *EpochEval
 	failed := false
 	nFirst, nCached := 0, 0
+	var lateEvals []*EpochEval
 	for _, e := range evs {
 		if e.Height != b.Height() {
 			continue
@@ -322,6 +363,13 @@ func (c *c17World) afterFinal(b *types.Block) {
 			nCached++
 		} else {
 			nFirst++
+		}
+		if rp := c.sim.Reorg; rp != nil && rp.LateNames[e.Replica] {
+			// evaluated inside the validation of a fork that contains this block: judged by lateVerdict (one finding, one signature)
+			if !c.lateRefusedName(e.Replica) {
+				lateEvals = append(lateEvals, e)
+			}
+			continue
 		}
 		if e.Replica == "alt" || e.Replica == "rival" {
 			// these evaluated a DIFFERENT block for this height first; their cached dumps are
@@ -342,13 +390,21 @@ func (c *c17World) afterFinal(b *types.Block) {
 			break
 		}
 	}
-	rep.Count("evals_first_pass", nFirst)
-	rep.Count("evals_cache_hit", nCached)
+	c.lateDumpDiffs = nil
+	for _, e := range lateEvals {
+		if ref != nil && e.Dump != ref.Dump {
+			c.lateDumpDiffs = append(c.lateDumpDiffs, fmt.Sprintf("%s (evaluation #%d, cacheHit=%v, restarts=%d): %s", e.Replica, e.Ordinal, e.CacheHit, e.Restarts, firstDumpDiff(ref.Dump, e.Dump)))
+		} else if ref != nil {
+			c.cnt("late_fork_evaluations_equal", 1)
+		}
+	}
+	c.cnt("evals_first_pass", nFirst)
+	c.cnt("evals_cache_hit", nCached)
 	if ref != nil {
 		for name, marker := range map[string]string{"bad_authors": `"BadAuthors":["`, "good_authors": `"GoodAuthors":["`, "rewarded_reporters": `"Reporters":["`,
 			"successful_invites": `/age`, "pools": `"Pools":["`, "non_validated_stakes": `"NonValidated":["`} {
 			if strings.Contains(ref.Dump, marker) {
-				rep.Count("real_epochs_with_"+name, 1)
+				c.cnt("real_epochs_with_"+name, 1)
 			}
 		}
 	}
@@ -370,22 +426,22 @@ func (c *c17World) afterFinal(b *types.Block) {
 		}
 	}
 	// 3. implications on the real outcomes
-	rep.Count("real_epochs_finished", 1)
-	rep.Count(fmt.Sprintf("real_epochs_finished_v%d", int(w.Opt.Version)), 1)
+	c.cnt("real_epochs_finished", 1)
+	c.cnt(fmt.Sprintf("real_epochs_finished_v%d", int(w.Opt.Version)), 1)
 	if failed {
-		rep.Count("real_epochs_failed_validation", 1)
+		c.cnt("real_epochs_failed_validation", 1)
 	}
 	changes := 0
 	var trans []string
 	st := w.View().AppState.State
 	for a, id := range c.pre {
 		post := st.GetIdentity(a).State
-		rep.Count("real_prior_"+stateNames[id.State], 1)
+		c.cnt("real_prior_"+stateNames[id.State], 1)
 		if post != id.State {
 			changes++
 		}
 		trans = append(trans, fmt.Sprintf("%s:%s>%s", fmtAddr(a), stateNames[id.State], stateNames[post]))
-		rep.Count("real_transition_"+stateNames[id.State]+"_"+stateNames[post], 1)
+		c.cnt("real_transition_"+stateNames[id.State]+"_"+stateNames[post], 1)
 		if failed {
 			continue // a void ceremony (nobody at all qualified) leaves every status untouched by design
 		}
@@ -400,7 +456,7 @@ func (c *c17World) afterFinal(b *types.Block) {
 		_, hasHash := inb[types.SubmitAnswersHashTx]
 		switch {
 		case id.State == state.Invite:
-			rep.Count("real_unactivated_invites", 1)
+			c.cnt("real_unactivated_invites", 1)
 			if post != state.Killed && post != state.Undefined {
 				rep.Violation("rule:real:invite-not-terminated", desc("an invitation that was not activated"), rd)
 			}
@@ -410,61 +466,290 @@ func (c *c17World) afterFinal(b *types.Block) {
 			}
 		}
 		if lacking {
-			rep.Count("real_lacking_flips", 1)
+			c.cnt("real_lacking_flips", 1)
 			if validatedState(post) {
 				rep.Violation("rule:real:lacking-flips-validated:"+stateNames[id.State], desc(fmt.Sprintf("had made %d of %d required flips", len(id.Flips), id.RequiredFlips)), rd)
 			}
 		}
 		if id.State >= state.Candidate && id.State != state.Killed {
 			if !hasShort && !hasLong && !hasHash {
-				rep.Count("real_sent_nothing", 1)
+				c.cnt("real_sent_nothing", 1)
 				if validatedState(post) {
 					rep.Violation("rule:real:absent-validated:"+stateNames[id.State], desc("had no answers hash, no short and no long answers in any block of the epoch"), rd)
 				}
 			} else if !hasShort || !hasLong {
-				rep.Count("real_missed_one_session", 1)
+				c.cnt("real_missed_one_session", 1)
 				if validatedState(post) {
 					rep.Violation("rule:real:missed-session-validated:"+stateNames[id.State], desc(fmt.Sprintf("short answers on chain=%v, long answers on chain=%v", hasShort, hasLong)), rd)
 				}
 			}
 		}
 	}
+	if !failed {
+		c.evidenceImplication(b, st)
+	}
+	c.reorgEvidence(b)
 	sort.Strings(trans)
 	if changes > 0 {
-		rep.Count("real_epochs_with_status_change", 1)
+		c.cnt("real_epochs_with_status_change", 1)
 		rep.Distinct("epoch", b.Hash().Hex())
 	}
-	rep.Count("real_status_changes", changes)
+	c.cnt("real_status_changes", changes)
 	if len(pl.Chain3) == 4 {
-		rep.Count("real_transitive_chain3_epochs_survived", 1)
+		c.cnt("real_transitive_chain3_epochs_survived", 1)
 		// both A and P newly validated in this epoch => the order-sensitive situation was live
 		a, p := c.pre[pl.Chain3[0]], c.pre[pl.Chain3[1]]
 		if !validatedState(a.State) && !validatedState(p.State) && validatedState(st.GetIdentity(pl.Chain3[0]).State) && validatedState(st.GetIdentity(pl.Chain3[1]).State) {
-			rep.Count("real_transitive_chain3_both_validated", 1)
+			c.cnt("real_transitive_chain3_both_validated", 1)
 		}
 	} else if len(pl.Chain3) == 3 {
-		rep.Count("real_transitive_chain2_epochs", 1)
+		c.cnt("real_transitive_chain2_epochs", 1)
 	}
 	if len(pl.Chain3) >= 3 {
 		// the ceremony removes the delegation of a newly validated delegator whose delegatee delegates itself
 		a := c.pre[pl.Chain3[0]]
 		postA := st.GetIdentity(pl.Chain3[0])
 		if a.Delegatee() != nil && postA.Delegatee() == nil && validatedState(postA.State) {
-			rep.Count("real_transitive_delegation_removed", 1)
+			c.cnt("real_transitive_delegation_removed", 1)
 		}
 	}
 	for _, id := range c.pre {
 		if id.Delegatee() != nil {
-			rep.Count("real_delegated_identities", 1)
+			c.cnt("real_delegated_identities", 1)
 		}
 	}
-	if c.shard == 0 && c.worldNo == 0 && pl.Epoch >= 1 {
+	if c.shard == 0 && c.worldNo == 0 && (pl.Epoch >= 1 || c.pfx != "") {
 		d := ""
 		if ref != nil {
 			d = ref.Dump
 		}
 		rep.Sample(map[string]interface{}{"world": c.describe(), "plan": pl.Describe(), "final_block": DescribeBlock(b), "transitions": trans,
 			"canonical_epoch_result": verifutil.Trunc(d, 3000), "evaluations_first_pass": nFirst, "evaluations_cache_hit": nCached})
+	}
+}
+
+// evidenceImplication: "an identity that missed the session is never promoted or left
+// validated", for the way of missing that only the evidence decides. From the harness' own
+// record of the evidence txs in blocks before the validation-finishing block (sender, the
+// candidates of the sender's shard it confirmed): a candidate of shard s that fewer than a
+// majority (more than half) of the evidence maps given by candidates of shard s confirm did
+// not take part in the short session in the eyes of the network and must not be validated.
+func (c *c17World) evidenceImplication(b *types.Block, st *state.StateDB) {
+	pl := c.sim.Plan
+	maps := map[common.ShardId][]common.Address{}
+	for sender, m := range pl.InBlock {
+		h, ok := m[types.EvidenceTx]
+		if !ok || h >= b.Height() || pl.EvMarked[sender] == nil || pl.ShardOf[sender] == 0 {
+			continue
+		}
+		maps[pl.ShardOf[sender]] = append(maps[pl.ShardOf[sender]], sender)
+	}
+	total := 0
+	for sh := common.ShardId(1); sh <= common.ShardId(pl.NShards); sh++ {
+		c.cnt(fmt.Sprintf("evidence_maps_on_chain_shard%d", sh), len(maps[sh]))
+		c.cnt(fmt.Sprintf("ceremony_candidates_shard%d", sh), len(pl.CandsBy[sh]))
+		if len(maps[sh]) == 0 {
+			c.cnt("shards_without_evidence", 1)
+		}
+		total += len(maps[sh])
+	}
+	if pl.NShards >= 2 {
+		c.cnt("epochs_with_two_shards", 1)
+	}
+	for _, a := range pl.Cands {
+		sh := pl.ShardOf[a]
+		n := len(maps[sh])
+		if n == 0 {
+			continue // no evidence at all in this shard: "a majority of the evidence" is empty talk
+		}
+		score := 0
+		for _, sender := range maps[sh] {
+			if pl.EvMarked[sender][a] {
+				score++
+			}
+		}
+		if 2*score > n {
+			c.cnt("real_confirmed_by_evidence", 1)
+			continue
+		}
+		c.cnt("real_unconfirmed_by_evidence", 1)
+		inb := pl.InBlock[a]
+		_, hasShort := inb[types.SubmitShortAnswersTx]
+		_, hasLong := inb[types.SubmitLongAnswersTx]
+		_, hasHash := inb[types.SubmitAnswersHashTx]
+		if hasShort && hasLong && hasHash {
+			c.cnt("real_unconfirmed_by_evidence_only", 1) // everything else is on chain: only the evidence says "missed"
+		}
+		// would the bits other shards' maps have at this list position make up a majority of ALL maps?
+		if pl.NShards >= 2 {
+			all := score
+			for osh := common.ShardId(1); osh <= common.ShardId(pl.NShards); osh++ {
+				if osh == sh || pl.CandIdx[a] >= len(pl.CandsBy[osh]) {
+					continue
+				}
+				twin := pl.CandsBy[osh][pl.CandIdx[a]]
+				for _, sender := range maps[osh] {
+					if pl.EvMarked[sender][twin] {
+						all++
+					}
+				}
+			}
+			if 2*all > total {
+				c.cnt("unconfirmed_with_foreign_majority_at_same_index", 1)
+				if hasShort && hasLong && hasHash {
+					c.cnt("unconfirmed_only_by_evidence_with_foreign_majority", 1)
+				}
+			}
+		}
+		pre := c.pre[a]
+		post := st.GetIdentity(a).State
+		if validatedState(post) {
+			c.rep.Violation("rule:real:evidence-minority-validated:"+stateNames[pre.State],
+				fmt.Sprintf("epoch %d (block %d): identity %s (%s, candidate #%d of shard %d) is confirmed by %d of the %d evidence maps that candidates of shard %d have on chain (no majority), and is %s afterwards; short answers on chain=%v, long=%v, hash=%v; shards=%d, evidence maps of all shards=%d",
+					pl.Epoch, b.Height(), fmtAddr(a), stateNames[pre.State], pl.CandIdx[a], sh, score, n, sh, stateNames[post], hasShort, hasLong, hasHash, pl.NShards, total),
+				map[string]interface{}{"world": c.describe(), "plan": pl.Describe(), "address": a.Hex()})
+		}
+	}
+}
+
+// reorgEvidence counts what the minority-block history of this epoch exercised.
+func (c *c17World) reorgEvidence(b *types.Block) {
+	rp, pl := c.sim.Reorg, c.sim.Plan
+	if rp == nil {
+		c.cnt("epochs_without_answers_reorg_planned", 1)
+		return
+	}
+	if !rp.Happened {
+		c.cnt("answers_reorg_not_happened", 1)
+		return
+	}
+	dropped, back := 0, 0
+	for a, m := range rp.Reverted {
+		for t := range m {
+			h, on := pl.InBlock[a][t]
+			on = on && h < b.Height() // an answers tx in the validation-finishing block itself is not input of this evaluation
+			switch {
+			case isAnswersTx(t) && on:
+				back++
+			case isAnswersTx(t):
+				dropped++
+			case t == types.EvidenceTx && on:
+				c.cnt("evidence_txs_reverted_reincluded", 1)
+			case t == types.EvidenceTx:
+				c.cnt("evidence_txs_reverted_not_reincluded", 1)
+			}
+		}
+	}
+	c.cnt("answers_txs_reverted", dropped+back)
+	c.cnt("answers_txs_reverted_not_reincluded", dropped)
+	c.cnt("answers_txs_reverted_reincluded", back)
+	c.cnt(fmt.Sprintf("answers_reorg_variant_%d", c.reorgVariant), 1)
+	if dropped > 0 {
+		c.cnt("epochs_with_dropped_answers", 1)
+		c.cnt("replicas_restarted_after_dropping_reorg", len(c.restartedAfter))
+		c.cnt("replicas_not_restarted_after_dropping_reorg", len(rp.Reorganised)-len(c.restartedAfter))
+		for _, v := range rp.Victims {
+			if validatedState(c.pre[v].State) || c.pre[v].State == state.Candidate {
+				c.cnt("victims_whose_outcome_hangs_on_dropped_answers", 1)
+			}
+		}
+	}
+	if back > 0 {
+		c.cnt("epochs_with_reincluded_answers", 1)
+	}
+}
+
+func (c *c17World) describeReorg() interface{} {
+	if c.sim == nil || c.sim.Reorg == nil {
+		return nil
+	}
+	rp := c.sim.Reorg
+	var t []string
+	for _, r := range rp.Targets {
+		t = append(t, r.Name)
+	}
+	var restarted []string
+	for r := range c.restartedAfter {
+		restarted = append(restarted, r.Name)
+	}
+	sort.Strings(restarted)
+	return map[string]interface{}{"variant": c.reorgVariant, "targets": t, "kinds(1=long,2=short)": rp.Kinds, "victims": len(rp.Victims), "reverted_txs_return": rp.Returns,
+		"happened": rp.Happened, "period": rp.Period, "minority_block": rp.MinorityHeight, "restarted_after_reorg": restarted}
+}
+
+func (c *c17World) lateRefusedName(name string) bool {
+	if c.sim == nil || c.sim.Reorg == nil {
+		return false
+	}
+	for r := range c.sim.Reorg.LateRefused {
+		if r.Name == name {
+			return true
+		}
+	}
+	return false
+}
+
+// lateVerdict judges the "late" histories: a replica inserts a minority block in the last slot
+// before the validation-finishing block and is cut off until the network has finished the
+// validation. A peer answers its fork request with one block more than the replica's own
+// branch has: the canonical block of that slot and the validation-finishing block. Same chain
+// => same epoch result: the replica must get onto the canonical chain like everybody else,
+// whatever it saw on its own branch.
+func (c *c17World) lateVerdict(b *types.Block) {
+	rp, pl := c.sim.Reorg, c.sim.Plan
+	if rp == nil || !rp.Late || rp.LateAnswer == nil {
+		return
+	}
+	fa := rp.LateAnswer
+	c.cnt("late_partitions", 1)
+	if !fa.HasFinal {
+		// the validation needed more blocks: the fork answer ends below the validation-finishing block, which then arrived by ordinary sync
+		c.cnt("late_partitions_fork_answer_without_validation_finishing_block", 1)
+	}
+	class := "same-ceremony-txs-on-both-branches"
+	if rp.MinorityCeremonyTxs+fa.CeremonyTxs > 0 {
+		class = "branches-differ-in-ceremony-txs"
+	}
+	if fa.HasFinal {
+		c.cnt("late_partitions_"+class, 1)
+	}
+	c.cnt("late_fork_adopted", len(rp.Reorganised))
+	history := fmt.Sprintf("epoch %d: in the last slot before the validation-finishing block a replica received and inserted block %d (proposed by a node, %d ceremony txs) that the rest of the network did not adopt, and was cut off. The network finished the validation with block %d, accepted by every connected replica. A peer on the canonical chain answers the replica's fork request (real ReadBlockForForkedPeer) with the %d certified blocks %d..%d (%d ceremony txs below the validation-finishing block)",
+		pl.Epoch, rp.MinorityHeight, rp.MinorityCeremonyTxs, b.Height(), len(fa.Blocks), fa.Blocks[0].Height(), fa.Blocks[len(fa.Blocks)-1].Height(), fa.CeremonyTxs)
+	cause := "Blockchain.ValidateSubChain evaluates the validation-finishing block through ValidationCeremony.ApplyNewEpoch with the ceremony data of the node's OWN branch (answers/evidence of reverted blocks are dropped only by ResetTo, those of the fork's blocks added only by AddBlock, both after the fork was validated)"
+	rd := map[string]interface{}{"world": c.describe(), "plan": pl.Describe(), "final_block": DescribeBlock(b)}
+	if len(c.lateDumpDiffs) > 0 {
+		sig := "epoch-result-dump-differs:after-late-fork"
+		if fa.HasFinal {
+			// the fork was adopted because the state roots coincide, but the epoch result the node computed for it is not the network's
+			sig = "epoch-result-differs:fork-with-validation-finishing-block:" + class
+		}
+		c.cnt("late_fork_adopted_with_different_epoch_result", 1)
+		c.rep.Violation(sig, history+fmt.Sprintf(". The replica adopted them (the state roots coincide), but the TotalValidationResult its ceremony computed for block %d differs from the one every other replica computed: %v. %s", b.Height(), c.lateDumpDiffs, cause), rd)
+	}
+	for r, err := range rp.LateRefused {
+		c.cnt("late_fork_refused", 1)
+		again := "a restart of the replica (ceremony state rebuilt from its database) made it accept the fork"
+		if e, ok := rp.LateRefusedAgain[r]; ok {
+			again = fmt.Sprintf("after a restart of the replica the same answer is refused again (%v)", e)
+			c.cnt("late_fork_refused_again_after_restart", 1)
+		}
+		if fa.HasFinal && strings.Contains(err.Error(), "invalid block roots") {
+			c.rep.Violation("epoch-result-differs:fork-with-validation-finishing-block:"+class,
+				history+fmt.Sprintf(". The real fork resolver of %s refuses them: %v; %s. %s", r.Name, err, again, cause), rd)
+		} else {
+			c.cnt("late_fork_refused_other_reason", 1)
+			c.sim.forkRefused(r, fa, err)
+		}
+		// the operator's way out: wipe the node and synchronise from genesis
+		if e := c.sim.Resync(r); e != nil {
+			c.rep.Note("resync of %s from genesis failed: %v", r.Name, e)
+			c.cnt("late_resync_failed", 1)
+		} else if r.Head().Hash() != c.w.View().Head().Hash() || DigestState(r.AppState) != DigestState(c.w.View().AppState) {
+			c.rep.Violation("post-epoch-state-differs:clean-sync-after-late-fork", fmt.Sprintf("%s, wiped and synchronised block by block from genesis, does not reach the canonical head state", r.Name), c.describe())
+		} else {
+			c.cnt("late_resynced_from_genesis", 1)
+		}
 	}
 }
 
@@ -519,22 +804,114 @@ func c17Version(shard int) config.ConsensusVerson {
 	return config.ConsensusV12
 }
 
+// c17Job parametrises the world loop for the two jobs of part (b).
+type c17Job struct {
+	stream     uint64 // PRNG stream of the job
+	pfx        string // counter prefix
+	nWorlds    int
+	nEpochs    int
+	K          int
+	twoShards  bool // genesis with two shards (the ceremony of the first epoch runs in two shards; it merges them again)
+	identRange [2]int
+}
+
+// c17ReorgVariants: who sees the minority block, what is withheld, when the reorganised replica is
+// restarted (-1 never, 0 right after the fork switch, k after k further blocks).
+var c17ReorgVariants = []struct {
+	targets []string // "a", "b" = the two restarters, "blind" = the follower re-created at the final block, "node" = proposing node Replicas[3]
+	restart map[string]int
+	kinds   int
+	phase   string
+	returns bool
+	late    bool
+}{
+	{[]string{"a"}, map[string]int{"a": 0}, ReorgLong, "long", false, false},
+	{[]string{"a", "blind"}, map[string]int{}, ReorgLong | ReorgShort, "afterlong", false, false},
+	{[]string{"b"}, map[string]int{"b": 1}, ReorgShort, "long", false, false},
+	{[]string{"a", "node"}, map[string]int{"a": 0}, ReorgLong, "long", true, false},
+	{[]string{"b", "node"}, map[string]int{"b": 2}, ReorgLong | ReorgShort, "afterlong", true, false},
+	{[]string{"a", "b", "blind"}, map[string]int{"a": 0}, ReorgLong, "afterlong", false, false},
+	{[]string{"b"}, map[string]int{}, ReorgLong, "afterlong", false, true},
+	{[]string{"a"}, map[string]int{}, 0, "afterlong", false, true}, // control: the minority block carries only a plain payment
+}
+
+// c17TwoShards is the genesis of a network that already has two shards: god and node 0 live in
+// shard 1, node 1 in shard 2, node 2 and the other identities are spread by the world seed so
+// that shard `small` gets about num/den of them.
+func c17TwoShards(small common.ShardId, num, den int) func(w *World, st *state.StateDB) {
+	return func(w *World, st *state.StateDB) {
+		r := verifutil.NewRng(w.Opt.Seed, 0x5ad)
+		sizes := map[common.ShardId]uint32{}
+		put := func(a *Actor, sh common.ShardId) {
+			if !state.IdentityState(w.Alloc[a.Addr].State).IsInShard() {
+				return
+			}
+			st.SetShardId(a.Addr, sh)
+			sizes[sh]++
+		}
+		pick := func() common.ShardId {
+			if r.Intn(den) < num {
+				return small
+			}
+			return 3 - small
+		}
+		st.SetShardsNum(2)
+		put(w.God, 1)
+		for i, n := range w.Nodes {
+			switch i {
+			case 0:
+				put(n, 1)
+			case 1:
+				put(n, 2)
+			default:
+				put(n, pick())
+			}
+		}
+		for _, a := range w.Idents {
+			put(a, pick())
+		}
+		st.SetShardSize(1, sizes[1])
+		st.SetShardSize(2, sizes[2])
+	}
+}
+
 func TestVerifC17Real(t *testing.T) {
 	if !verifutil.Enabled() {
 		t.Skip("verif harness")
 	}
 	rep := verifutil.NewReport()
 	defer rep.Write()
-	shard := verifutil.Shard()
-	nWorlds := verifutil.Scale(2, 12)
-	nEpochs := verifutil.Scale(3, 4)
-	K := verifutil.Scale(3, 6)
 	orders := map[string]bool{}
+	c17RunWorlds(t, rep, orders, c17Job{stream: 17, nWorlds: verifutil.Scale(2, 12), nEpochs: verifutil.Scale(3, 4), K: verifutil.Scale(3, 6), identRange: [2]int{9, 24}})
+	rep.Count("distinct_map_orders_witnessed", len(orders))
+}
+
+// TestVerifC17Shards: the same differential worlds, started from a genesis with TWO shards, one
+// epoch each (the validation-finishing block merges the shards of so small a network again).
+func TestVerifC17Shards(t *testing.T) {
+	if !verifutil.Enabled() {
+		t.Skip("verif harness")
+	}
+	rep := verifutil.NewReport()
+	defer rep.Write()
+	orders := map[string]bool{}
+	c17RunWorlds(t, rep, orders, c17Job{stream: 1702, pfx: "ms_", nWorlds: verifutil.Scale(5, 14), nEpochs: 1, K: verifutil.Scale(2, 4), twoShards: true, identRange: [2]int{18, 32}})
+	rep.Count("ms_distinct_map_orders_witnessed", len(orders))
+}
+
+func c17RunWorlds(t *testing.T, rep *verifutil.Report, orders map[string]bool, job c17Job) {
+	shard := verifutil.Shard()
+	nWorlds, nEpochs, K := job.nWorlds, job.nEpochs, job.K
 	for wn := 0; wn < nWorlds; wn++ {
-		rng := verifutil.Stream(17, uint64(wn))
+		rng := verifutil.Stream(job.stream, uint64(wn))
 		seed := rng.U64()>>16 | 1
-		o := Options{Seed: seed, Version: c17Version(shard), NNodes: 3, NIdent: rng.Range(9, 24), NAccounts: 2, Epoch: EpochReal,
+		o := Options{Seed: seed, Version: c17Version(shard), NNodes: 3, NIdent: rng.Range(job.identRange[0], job.identRange[1]), NAccounts: 2, Epoch: EpochReal,
 			ValidationInterval: 35 * time.Minute, FirstCeremonyIn: 30 * time.Minute, GodIsIdentity: (shard+wn)%6 != 5, DelegationSwitchRange: 4}
+		if job.twoShards {
+			// the smaller shard alternates and gets about 1/4, 1/3 or 1/2 of the identities
+			den := []int{4, 3, 2, 4}[(shard+wn)%4]
+			o.GenesisTweak = c17TwoShards(common.ShardId(1+(shard/2+wn)%2), 1, den)
+		}
 		// node owners must be able to stay validated for several epochs: a genesis Verified
 		// identity has no score history and is killed by the first ceremony that has flips
 		// (fewer than 13 qualified flips), so worlds whose node identities are all Human are
@@ -553,7 +930,7 @@ func TestVerifC17Real(t *testing.T) {
 			o.Seed += 2
 		}
 		seed = o.Seed
-		c := &c17World{w: w, rep: rep, variant: map[*Replica]string{}, rsPhase: map[*Replica]string{}, K: K, orders: orders, shard: shard, worldNo: wn}
+		c := &c17World{w: w, rep: rep, variant: map[*Replica]string{}, rsPhase: map[*Replica]string{}, K: K, orders: orders, shard: shard, worldNo: wn, pfx: job.pfx}
 		c.variant[w.Replicas[0]] = "sees-all"
 		mk := func(owner *Actor, name, variant string) *Replica {
 			r := w.NewReplica(owner, dbm.NewMemDB())
@@ -565,7 +942,9 @@ func TestVerifC17Real(t *testing.T) {
 		c.fresh = mk(w.God, "blind", "blind") // no mempool traffic at all; re-created K times at the final block ("fresh")
 		c.rival = mk(w.God, "rival", "rival")
 		c.alt = mk(w.Nodes[0], "alt", "alt")
+		minority := mk(w.Nodes[1], "minority", "minority") // proposes the minority blocks of the answers-reorg histories, never inserts them
 		sim := NewCeremonySim(w, rng.Fork(1), rep)
+		sim.CountPrefix = job.pfx
 		c.sim = sim
 		sim.Debug = os.Getenv("VERIF_C17_DEBUG") != ""
 		if sim.Debug {
@@ -583,6 +962,28 @@ func TestVerifC17Real(t *testing.T) {
 		if err := w.Prologue(); err != nil {
 			t.Fatal(err)
 		}
+		if job.twoShards {
+			if n := w.View().AppState.State.ShardsNum(); n != 2 {
+				t.Fatalf("two-shard genesis: the state has %d shards", n)
+			}
+			sim.PlantUnseen = 2
+			if (shard+wn)%3 != 2 {
+				sim.EvidenceDiscipline = 60
+			}
+		}
+		restart := func(r *Replica, phase string) bool {
+			if err := r.Restart(); err != nil {
+				rep.Violation("restart-failed:"+phase, fmt.Sprintf("clean restart of a follower in phase %s failed: %v", phase, err), nil)
+				return false
+			}
+			return true
+		}
+		restartAfterReorg := func(r *Replica) {
+			if restart(r, "after-answers-reorg") {
+				c.restartedAfter[r] = true
+				c.cnt("restart_after_answers_reorg", 1)
+			}
+		}
 		sim.OnRefused = func(res *BlockResult) {
 			b := res.Block
 			for n, e := range res.Errs {
@@ -598,7 +999,7 @@ func TestVerifC17Real(t *testing.T) {
 				}
 				if b.Header.Flags().HasFlag(types.ValidationFinished) && (c.nondet || c.chainLive) {
 					// already reported as order dependence of the epoch result: this refusal is a consequence
-					rep.Count("refusals_following_order_dependence", 1)
+					c.cnt("refusals_following_order_dependence", 1)
 				} else if b.Header.Flags().HasFlag(types.ValidationFinished) {
 					detail := ""
 					if (v == "alt" || v == "rival") && c.altNote != "" {
@@ -617,12 +1018,18 @@ func TestVerifC17Real(t *testing.T) {
 		}
 		sim.OnPhase = func(phase string) {
 			for _, r := range c.restarters {
+				if sim.Reorg != nil && sim.Reorg.CutOff[r] {
+					continue // away on a minority branch
+				}
 				if c.rsPhase[r] == phase {
-					if err := r.Restart(); err != nil {
-						rep.Violation("restart-failed:"+phase, fmt.Sprintf("clean restart of a follower in phase %s failed: %v", phase, err), nil)
+					if !restart(r, phase) {
 						continue
 					}
-					rep.Count("restart_at_"+phase, 1)
+					c.cnt("restart_at_"+phase, 1)
+					if c.reorged[r] {
+						c.restartedAfter[r] = true
+						c.cnt("restart_after_answers_reorg", 1)
+					}
 				}
 			}
 			// in every third epoch one of the PROPOSING nodes is restarted too: it may well be the one
@@ -632,8 +1039,41 @@ func TestVerifC17Real(t *testing.T) {
 				if err := r.Restart(); err != nil {
 					rep.Violation("restart-failed:"+phase, fmt.Sprintf("clean restart of a proposing node in phase %s failed: %v", phase, err), nil)
 				} else {
-					rep.Count("restart_of_proposing_node", 1)
+					c.cnt("restart_of_proposing_node", 1)
 					c.nodeRestarted = r
+					if c.reorged[r] {
+						c.restartedAfter[r] = true
+						c.cnt("restart_after_answers_reorg", 1)
+					}
+				}
+			}
+		}
+		sim.OnReorged = func(rp *ReorgPlan) {
+			v := c17ReorgVariants[c.reorgVariant]
+			byName := map[*Replica]string{c.restarters[0]: "a", c.restarters[1]: "b", c.fresh: "blind", w.Replicas[3]: "node"}
+			for _, r := range rp.Reorganised {
+				c.reorged[r] = true
+				if r.Restarts > c.restartsBefore[r] {
+					c.cnt("replicas_restarted_before_answers_reorg", 1) // restarted in an earlier phase of this epoch
+				}
+				if k, ok := v.restart[byName[r]]; ok {
+					if k == 0 {
+						restartAfterReorg(r)
+					} else {
+						c.pendingRestart[r] = k
+					}
+				}
+			}
+		}
+		sim.OnStep = func(res *BlockResult) {
+			for r, k := range c.pendingRestart {
+				if k--; k > 0 {
+					c.pendingRestart[r] = k
+					continue
+				}
+				delete(c.pendingRestart, r)
+				if r.Alive && !res.Block.Header.Flags().HasFlag(types.ValidationFinished) {
+					restartAfterReorg(r)
 				}
 			}
 		}
@@ -653,13 +1093,13 @@ func TestVerifC17Real(t *testing.T) {
 			}
 		}
 		epochsHere := nEpochs
-		if verifutil.Thorough() && wn == 0 && o.Version != config.ConsensusV12 {
+		if verifutil.Thorough() && wn == 0 && o.Version != config.ConsensusV12 && !job.twoShards {
 			// before upgrade 12 the cached "participated" bit decides the stake handling of a killed
 			// Suspended/Zombie identity of age >= 5: needs a long-lived world (competing proposals, suspect i)
 			epochsHere = 8
 		}
 		for e := 0; e < epochsHere && !sim.Stopped; e++ {
-			rep.Progress("C17 world %d seed %d epoch %d", wn, seed, e)
+			rep.Progress("C17 %sworld %d seed %d epoch %d", job.pfx, wn, seed, e)
 			for i, r := range c.restarters {
 				c.rsPhase[r] = c17Phases[(shard+wn+e+2*i)%4]
 			}
@@ -667,7 +1107,7 @@ func TestVerifC17Real(t *testing.T) {
 			// A->P->Q->R (whose outcome turned out to depend on map order, see spec) only in the
 			// last epoch of every second shard's world, because the world rarely survives it
 			sim.ChainLinks = 0
-			if e == epochsHere-1 && (shard+wn)%2 == 0 {
+			if e == epochsHere-1 && (shard+wn)%2 == 0 && !job.twoShards {
 				sim.ChainLinks = 3
 			} else if rng.Intn(2) == 0 {
 				sim.ChainLinks = 2
@@ -680,14 +1120,42 @@ func TestVerifC17Real(t *testing.T) {
 			if (shard+wn+e)%3 == 0 {
 				c.nodeRestartPhase = c17Phases[(shard+wn+2*e)%4]
 			}
+			// minority-block history of this epoch: 8 of 10 (process shard, world, epoch) residues select one of
+			// the variants of c17ReorgVariants, 2 of 10 none
+			c.reorged, c.restartedAfter, c.pendingRestart = map[*Replica]bool{}, map[*Replica]bool{}, map[*Replica]int{}
+			c.restartsBefore = map[*Replica]int{}
+			for _, r := range w.Replicas {
+				c.restartsBefore[r] = r.Restarts
+			}
+			sim.Reorg = nil
+			sel := (shard*7 + wn*3 + e) % 10
+			if v := os.Getenv("VERIF_C17_REORGVARIANT"); v != "" {
+				fmt.Sscan(v, &sel)
+			}
+			if sel < len(c17ReorgVariants) && os.Getenv("VERIF_C17_NOREORG") == "" && !(c17ReorgVariants[sel].late && os.Getenv("VERIF_C17_NOLATE") != "") {
+				v := c17ReorgVariants[sel]
+				c.reorgVariant = sel
+				byName := map[string]*Replica{"a": c.restarters[0], "b": c.restarters[1], "blind": c.fresh, "node": w.Replicas[3]}
+				rp := &ReorgPlan{Phase: v.phase, Kinds: v.kinds, NVictims: 1 + (shard+wn+e)%2, Proposer: minority, Returns: v.returns, Late: v.late}
+				for _, n := range v.targets {
+					rp.Targets = append(rp.Targets, byName[n])
+				}
+				if v.returns {
+					rp.ReturnNode = w.Replicas[3]
+				}
+				for _, k := range v.restart {
+					rp.RestartDelay = maxInt(rp.RestartDelay, k)
+				}
+				sim.Reorg = rp
+			}
 			b := sim.RunEpoch()
 			if sim.Plan != nil && len(sim.Plan.Chain3) == 4 {
-				rep.Count("real_transitive_chain3_epochs", 1)
+				c.cnt("real_transitive_chain3_epochs", 1)
 			}
 			if b == nil {
 				if !sim.Stopped {
-					rep.Note("world %d epoch %d did not finish", wn, e)
-					rep.Count("real_epochs_unfinished", 1)
+					rep.Note("%sworld %d epoch %d did not finish", job.pfx, wn, e)
+					c.cnt("real_epochs_unfinished", 1)
 				}
 				break
 			}
@@ -696,18 +1164,21 @@ func TestVerifC17Real(t *testing.T) {
 				continue
 			}
 			if b.IsEmpty() {
-				rep.Count("real_final_block_empty", 1)
+				c.cnt("real_final_block_empty", 1)
 			}
 			c.afterFinal(b)
+			c.lateVerdict(b)
 			for cls, n := range sim.Plan.Describe()["behaviours"].(map[string]int) {
-				rep.Count("behaviour_"+cls, n)
+				c.cnt("behaviour_"+cls, n)
+			}
+			if job.twoShards && e == 0 {
+				c.cnt(fmt.Sprintf("shards_after_first_validation_%d", w.View().AppState.State.ShardsNum()), 1)
 			}
 		}
 		for k, v := range sim.Included {
-			rep.Count("included_"+k, v)
+			c.cnt("included_"+k, v)
 		}
 		w.DropEpochEvals()
 		w.Cleanup()
 	}
-	rep.Count("distinct_map_orders_witnessed", len(orders))
 }
